@@ -1,13 +1,18 @@
 /-
   C15 — Interpolation, location and densification agree along a line.
 
-  Property theorems only (helper lemmas: GeoProofs/Lemmas/C15.lean). Model: GeoModel/Interp.lean.
+  Property theorems only (helper lemmas: GeoProofs/Lemmas/C15.lean, C15PSimple.lean, C15POn.lean,
+  C15PDensify.lean; `segs` is written `Interp.segs` because `Geo.segs` of GeoModel/Segment.lean is in
+  scope through the `lineCoord` kernel). Model: GeoModel/Interp.lean.
   Segment lengths enter through an abstract `len`; what a theorem needs of it is the hypothesis
   `LenAx len` (non-negative, symmetric, zero only between equal points) — all true of the Euclidean
   length — or is stated explicitly.
 -/
 import GeoModel.Interp
 import GeoProofs.Lemmas.C15
+import GeoProofs.Lemmas.C15PSimple
+import GeoProofs.Lemmas.C15POn
+import GeoProofs.Lemmas.C15PDensify
 
 namespace Geo.Proofs.C15
 open Geo Geo.Interp
@@ -125,46 +130,46 @@ theorem from_end_eq_reverse (len : Len) (cs : List Pt) (d : Rat) :
 /-! ### arc-length characterisation and the start/end symmetry -/
 
 private theorem segs_head {cs : List Pt} {a b : Pt} {rest : List (Pt × Pt)}
-    (h : segs cs = (a, b) :: rest) : cs.head? = some a := by
+    (h : Interp.segs cs = (a, b) :: rest) : cs.head? = some a := by
   match cs, h with
-  | x :: y :: t, h => simp only [segs, List.cons.injEq, Prod.mk.injEq] at h; simp [h.1.1]
+  | x :: y :: t, h => simp only [Interp.segs, List.cons.injEq, Prod.mk.injEq] at h; simp [h.1.1]
 
 private theorem segs_last : ∀ {cs : List Pt} {init : List (Pt × Pt)} {a b : Pt},
-    segs cs = init ++ [(a, b)] → cs.getLast? = some b
-  | [], init, a, b, h => by simp [segs] at h
-  | [_], init, a, b, h => by simp [segs] at h
+    Interp.segs cs = init ++ [(a, b)] → cs.getLast? = some b
+  | [], init, a, b, h => by simp [Interp.segs] at h
+  | [_], init, a, b, h => by simp [Interp.segs] at h
   | [x, y], init, a, b, h => by
     cases init with
-    | nil => simp only [segs, List.nil_append, List.cons.injEq, Prod.mk.injEq, and_true] at h; simp [h.2]
-    | cons i is => simp [segs] at h
+    | nil => simp only [Interp.segs, List.nil_append, List.cons.injEq, Prod.mk.injEq, and_true] at h; simp [h.2]
+    | cons i is => simp [Interp.segs] at h
   | x :: y :: z :: t, init, a, b, h => by
     cases init with
-    | nil => simp [segs] at h
+    | nil => simp [Interp.segs] at h
     | cons i is =>
-      simp only [segs, List.cons_append, List.cons.injEq] at h
-      have := segs_last (cs := y :: z :: t) (init := is) (a := a) (b := b) (by simpa [segs] using h.2)
+      simp only [Interp.segs, List.cons_append, List.cons.injEq] at h
+      have := segs_last (cs := y :: z :: t) (init := is) (a := a) (b := b) (by simpa [Interp.segs] using h.2)
       simpa using this
 
 /-- [T] `lies on the line at arc length d`: for `0 ≤ d ≤ length` (and at least one segment) the
 distance form returns a point that is at arc length `d` on the chain of segments (`OnSegs`: on
 a segment whose cumulative interval contains `d`, at `len`-distance `d − Σ before` from its
 start); by `onSegs_unique` that point is unique. -/
-theorem ls_distance_onSegs {len : Len} (hl : LenAx len) (cs : List Pt) (d : Rat) (hne : segs cs ≠ [])
+theorem ls_distance_onSegs {len : Len} (hl : LenAx len) (cs : List Pt) (d : Rat) (hne : Interp.segs cs ≠ [])
     (h0 : 0 ≤ d) (h1 : d ≤ lsLength len cs) :
-    ∃ p, lsPointAtDistanceFromStart len cs d = some p ∧ OnSegs len (segs cs) d p := by
+    ∃ p, lsPointAtDistanceFromStart len cs d = some p ∧ OnSegs len (Interp.segs cs) d p := by
   unfold lsPointAtDistanceFromStart
   by_cases hd : d ≤ 0
   · have hd0 : d = 0 := le_antisymm hd h0
     rw [if_pos hd]
-    match hs : segs cs, hne with
+    match hs : Interp.segs cs, hne with
     | (a, b) :: rest, _ =>
       exact ⟨a, segs_head hs, Or.inl ⟨h0, by rw [hd0]; exact hl.nonneg a b, by rw [hd0, pdb_zero]⟩⟩
   · rw [if_neg hd]
     have hpos : 0 < d := not_le.1 hd
-    match hw : walk len (segs cs) d with
-    | some (a, b, r) => exact ⟨_, rfl, walk_onSegs (segs cs) d hpos hw⟩
+    match hw : walk len (Interp.segs cs) d with
+    | some (a, b, r) => exact ⟨_, rfl, walk_onSegs (Interp.segs cs) d hpos hw⟩
     | none =>
-      have := walk_none (segs cs) d hpos hw
+      have := walk_none (Interp.segs cs) d hpos hw
       unfold lsLength at h1
       linarith
 
@@ -173,7 +178,7 @@ theorem ls_distance_onSegs {len : Len} (hl : LenAx len) (cs : List Pt) (d : Rat)
 the last coordinate because everything after it has zero length). -/
 theorem ls_distance_clamp_hi {len : Len} (hl : LenAx len) (cs : List Pt) (d : Rat)
     (h : lsLength len cs ≤ d) : lsPointAtDistanceFromStart len cs d = cs.getLast? := by
-  by_cases hne : segs cs = []
+  by_cases hne : Interp.segs cs = []
   · -- no segment: at most one coordinate
     unfold lsPointAtDistanceFromStart
     rw [hne]
@@ -189,10 +194,10 @@ theorem ls_distance_clamp_hi {len : Len} (hl : LenAx len) (cs : List Pt) (d : Ra
       obtain ⟨p, hp, hon⟩ := ls_distance_onSegs hl cs d hne (by linarith) (le_of_eq hd)
       rw [hp]
       -- the last coordinate is also at arc length `length`
-      obtain ⟨init, s, hs⟩ : ∃ init s, segs cs = init ++ [s] :=
-        ⟨(segs cs).dropLast, (segs cs).getLast hne, (List.dropLast_append_getLast hne).symm⟩
+      obtain ⟨init, s, hs⟩ : ∃ init s, Interp.segs cs = init ++ [s] :=
+        ⟨(Interp.segs cs).dropLast, (Interp.segs cs).getLast hne, (List.dropLast_append_getLast hne).symm⟩
       obtain ⟨a, b⟩ := s
-      have hlast : OnSegs len (segs cs) d b := by
+      have hlast : OnSegs len (Interp.segs cs) d b := by
         rw [hs, onSegs_append]
         right
         have : d - sumLen len init = len a b := by
@@ -208,20 +213,20 @@ theorem distance_start_end {len : Len} (hl : LenAx len) (cs : List Pt) (d : Rat)
     (h0 : 0 ≤ d) (h1 : d ≤ lsLength len cs) :
     lsPointAtDistanceFromStart len cs d = lsPointAtDistanceFromEnd len cs (lsLength len cs - d) := by
   rw [from_end_eq_reverse]
-  by_cases hne : segs cs = []
+  by_cases hne : Interp.segs cs = []
   · match cs, hne with
-    | [], _ => simp [lsPointAtDistanceFromStart, walk, segs]
-    | [a], _ => simp [lsPointAtDistanceFromStart, walk, segs]
-  · have hrev : segs cs.reverse = flipRev (segs cs) := segs_reverse cs
+    | [], _ => simp [lsPointAtDistanceFromStart, walk, Interp.segs]
+    | [a], _ => simp [lsPointAtDistanceFromStart, walk, Interp.segs]
+  · have hrev : Interp.segs cs.reverse = flipRev (Interp.segs cs) := segs_reverse cs
     have hLrev : lsLength len cs.reverse = lsLength len cs := by
       unfold lsLength; rw [hrev, sumLen_flipRev hl]
-    have hne' : segs cs.reverse ≠ [] := by
+    have hne' : Interp.segs cs.reverse ≠ [] := by
       rw [hrev]; unfold flipRev; simpa using hne
     obtain ⟨p, hp, hon⟩ := ls_distance_onSegs hl cs d hne h0 h1
     obtain ⟨q, hq, hon'⟩ := ls_distance_onSegs hl cs.reverse (lsLength len cs - d) hne'
       (by linarith) (by rw [hLrev]; linarith)
     rw [hp, hq]
-    have := onSegs_flipRev hl (segs cs) d p hon
+    have := onSegs_flipRev hl (Interp.segs cs) d p hon
     rw [← hrev] at this
     rw [onSegs_unique hl _ _ p q (chain_segs cs.reverse) this hon']
 
@@ -374,18 +379,18 @@ private theorem densifyLS_cons2 (len : Len) (a b : Pt) (rest : List Pt) (mx : Ra
   rw [List.getLast?_cons_cons]
   cases h : (b :: rest).getLast? with
   | none => simp at h
-  | some z => simp [segs, densifySegs]
+  | some z => simp [Interp.segs, densifySegs]
 
 private theorem densifyLS_head (len : Len) (b : Pt) (rest : List Pt) (mx : Rat) :
     ∃ Y, densifyLS len (b :: rest) mx = b :: Y := by
   cases rest with
-  | nil => exact ⟨[], by simp [densifyLS, segs, densifySegs]⟩
+  | nil => exact ⟨[], by simp [densifyLS, Interp.segs, densifySegs]⟩
   | cons c rest => exact ⟨_, densifyLS_cons2 len b c rest mx⟩
 
 /-- [T] `densify_sublist`: every original vertex is kept, in order. -/
 theorem densify_sublist (len : Len) (mx : Rat) : ∀ cs : List Pt, cs.Sublist (densifyLS len cs mx)
   | [] => by simp [densifyLS]
-  | [a] => by simp [densifyLS, segs, densifySegs]
+  | [a] => by simp [densifyLS, Interp.segs, densifySegs]
   | a :: b :: rest => by
     rw [densifyLS_cons2]
     exact List.Sublist.cons_cons a
@@ -396,7 +401,7 @@ theorem densify_sublist (len : Len) (mx : Rat) : ∀ cs : List Pt, cs.Sublist (d
 theorem densify_ends (len : Len) (mx : Rat) : ∀ cs : List Pt,
     (densifyLS len cs mx).head? = cs.head? ∧ (densifyLS len cs mx).getLast? = cs.getLast?
   | [] => by simp [densifyLS]
-  | [a] => by simp [densifyLS, segs, densifySegs]
+  | [a] => by simp [densifyLS, Interp.segs, densifySegs]
   | a :: b :: rest => by
     obtain ⟨Y, hY⟩ := densifyLS_head len b rest mx
     have ih := (densify_ends len mx (b :: rest)).2
@@ -445,11 +450,11 @@ private theorem densifyLine_eq_map (len : Len) (a b : Pt) (mx : Rat) (hn : 0 < n
 
 /-- [T] densifying a Line: no piece is longer than `max`. -/
 theorem densify_line_pieces {len : Len} (hl : LenAx len) (hh : LenLerp len) (a b : Pt) (mx : Rat)
-    (hmx : 0 < mx) : ∀ s ∈ segs (densifyLine len a b mx), len s.1 s.2 ≤ mx := by
+    (hmx : 0 < mx) : ∀ s ∈ Interp.segs (densifyLine len a b mx), len s.1 s.2 ≤ mx := by
   by_cases h0 : len a b = 0
   · intro s hs
     simp only [densifyLine, densify_between_zero len a b mx h0, List.append_nil, List.singleton_append,
-      segs, List.mem_singleton] at hs
+      Interp.segs, List.mem_singleton] at hs
     rw [hs, h0]; exact le_of_lt hmx
   · have hpos : 0 < len a b := lt_of_le_of_ne (hl.nonneg a b) (Ne.symm h0)
     obtain ⟨hn, hb, _⟩ := densify_piece_bound hl a b mx hmx hpos
@@ -466,9 +471,9 @@ theorem densify_line_pieces {len : Len} (hl : LenAx len) (hh : LenLerp len) (a b
 
 /-- [T] densifying a Line leaves its length unchanged. -/
 theorem densify_line_length {len : Len} (hl : LenAx len) (hh : LenLerp len) (a b : Pt) (mx : Rat)
-    (hmx : 0 < mx) : sumLen len (segs (densifyLine len a b mx)) = len a b := by
+    (hmx : 0 < mx) : sumLen len (Interp.segs (densifyLine len a b mx)) = len a b := by
   by_cases h0 : len a b = 0
-  · simp [densifyLine, densify_between_zero len a b mx h0, segs, sumLen]
+  · simp [densifyLine, densify_between_zero len a b mx h0, Interp.segs, sumLen]
   · have hpos : 0 < len a b := lt_of_le_of_ne (hl.nonneg a b) (Ne.symm h0)
     obtain ⟨hn, _, _⟩ := densify_piece_bound hl a b mx hmx hpos
     have hnq : (0 : Rat) < (numSegments len a b mx : Rat) := by exact_mod_cast hn
@@ -483,8 +488,8 @@ theorem densify_line_length {len : Len} (hl : LenAx len) (hh : LenLerp len) (a b
       push_cast; field_simp; ring
 
 private theorem segs_densifyLS_cons2 (len : Len) (a b : Pt) (rest : List Pt) (mx : Rat) :
-    segs (densifyLS len (a :: b :: rest) mx) =
-      segs (densifyLine len a b mx) ++ segs (densifyLS len (b :: rest) mx) := by
+    Interp.segs (densifyLS len (a :: b :: rest) mx) =
+      Interp.segs (densifyLine len a b mx) ++ Interp.segs (densifyLS len (b :: rest) mx) := by
   obtain ⟨Y, hY⟩ := densifyLS_head len b rest mx
   rw [densifyLS_cons2, hY]
   have e : a :: (densifyBetween len a b mx ++ b :: Y) = (a :: densifyBetween len a b mx) ++ b :: Y := rfl
@@ -493,9 +498,9 @@ private theorem segs_densifyLS_cons2 (len : Len) (a b : Pt) (rest : List Pt) (mx
 
 /-- [T] `densify(max)` on a LineString produces no segment longer than `max`. -/
 theorem densify_ls_pieces {len : Len} (hl : LenAx len) (hh : LenLerp len) (mx : Rat) (hmx : 0 < mx) :
-    ∀ cs : List Pt, ∀ s ∈ segs (densifyLS len cs mx), len s.1 s.2 ≤ mx
-  | [], s, hs => by simp [densifyLS, segs] at hs
-  | [a], s, hs => by simp [densifyLS, segs, densifySegs] at hs
+    ∀ cs : List Pt, ∀ s ∈ Interp.segs (densifyLS len cs mx), len s.1 s.2 ≤ mx
+  | [], s, hs => by simp [densifyLS, Interp.segs] at hs
+  | [a], s, hs => by simp [densifyLS, Interp.segs, densifySegs] at hs
   | a :: b :: rest, s, hs => by
     rw [segs_densifyLS_cons2, List.mem_append] at hs
     rcases hs with hs | hs
@@ -506,12 +511,12 @@ theorem densify_ls_pieces {len : Len} (hl : LenAx len) (hh : LenLerp len) (mx : 
 theorem densify_ls_length {len : Len} (hl : LenAx len) (hh : LenLerp len) (mx : Rat) (hmx : 0 < mx) :
     ∀ cs : List Pt, lsLength len (densifyLS len cs mx) = lsLength len cs
   | [] => by simp [densifyLS]
-  | [a] => by simp [densifyLS, segs, densifySegs, lsLength]
+  | [a] => by simp [densifyLS, Interp.segs, densifySegs, lsLength]
   | a :: b :: rest => by
     have ih := densify_ls_length hl hh mx hmx (b :: rest)
     unfold lsLength at ih ⊢
     rw [segs_densifyLS_cons2, sumLen_append, densify_line_length hl hh a b mx hmx, ih]
-    simp [segs, sumLen]
+    simp [Interp.segs, sumLen]
 
 /-! ### the deprecated `line_interpolate_point` -/
 
@@ -577,16 +582,16 @@ theorem deprecated_eq_ratio {len : Len} (hl : LenAx len) (cs : List Pt) (f : Rat
       · rw [if_neg h0]; exact ⟨by norm_num, le_refl _⟩
   unfold lsLineInterpolatePoint
   simp only [hf']
-  by_cases hne : segs cs = []
+  by_cases hne : Interp.segs cs = []
   · rw [hne]
     match cs, hne with
-    | [], _ => simp [lipGo, lsPointAtRatioFromStart, lsPointAtDistanceFromStart, walk, segs]
+    | [], _ => simp [lipGo, lsPointAtRatioFromStart, lsPointAtDistanceFromStart, walk, Interp.segs]
     | [a], _ =>
-      simp [lipGo, lsPointAtRatioFromStart, lsPointAtDistanceFromStart, segs, lsLength, sumLen,
+      simp [lipGo, lsPointAtRatioFromStart, lsPointAtDistanceFromStart, Interp.segs, lsLength, sumLen,
         lineInterpolatePoint, lerp_zero]
   · have hd0 : 0 ≤ lsLength len cs * f' := mul_nonneg hL hf0.1
     have hd1 : lsLength len cs * f' ≤ lsLength len cs := by nlinarith [hf0.2]
-    obtain ⟨p, hp, hon⟩ := lipGo_onSegs hl (lsLength len cs * f') (segs cs) 0 hd0
+    obtain ⟨p, hp, hon⟩ := lipGo_onSegs hl (lsLength len cs * f') (Interp.segs cs) 0 hd0
       (by rw [sub_zero]; exact hd1) hne
     obtain ⟨q, hq, hon'⟩ := ls_distance_onSegs hl cs (lsLength len cs * f') hne hd0 hd1
     rw [hp]
@@ -600,16 +605,18 @@ repeated coordinate at fraction 0 gives `None` although the ratio form gives the
 theorem deprecated_pinned_witness :
     lsLineInterpolatePointPinned (fun a b => rabs (a.x - b.x) + rabs (a.y - b.y))
       [⟨0, 0⟩, ⟨0, 0⟩, ⟨1, 0⟩] 0 = none := by
-  simp [lsLineInterpolatePointPinned, lipGoPinned, segs, lsLength, sumLen, rabs]
+  simp [lsLineInterpolatePointPinned, lipGoPinned, Interp.segs, lsLength, sumLen, rabs]
 
 /-! ### locate inverts interpolate (LineString) -/
 
-/-- [Tp] LineString round trip. FULL STATEMENT (not proved in this generality): for every
-*simple* line string of positive length and every `r`,
-`line_locate_point(point_at_ratio_from_start(line, r)) = clamp01 r`. Proved here for
-`0 < r ≤ 1` with simplicity in the explicit form `EarlierApart`; `r ≤ 0` is `locate_start` below
+/-- [T] LineString round trip, pointwise form: for `0 < r ≤ 1` and a line of positive length, if the
+interpolated point is at positive distance from every segment that ends before the one the walk
+stops on (`EarlierApart` — a hypothesis about this one point, so it also covers non-simple lines
+at the points where they have not been visited before), `line_locate_point` returns `r`.
+The full statement — every simple line string (`SimpleLS`), every `r` — is `locate_interpolate_ls`
+below, which discharges `EarlierApart` by `simple_earlierApart`; `r ≤ 0` is `locate_start`
 (no hypothesis needed); `r > 1` reduces to `r = 1` by `ls_ratio_clamp`. -/
-theorem locate_interpolate_ls_partial {len : Len} (hl : LenAx len) (cs : List Pt) (r : Rat)
+theorem locate_interpolate_ls_pointwise {len : Len} (hl : LenAx len) (cs : List Pt) (r : Rat)
     (h0 : 0 < r) (h1 : r ≤ 1) (hL : 0 < lsLength len cs) (p : Pt)
     (hp : lsPointAtRatioFromStart len cs r = some p)
     (hs : EarlierApart len cs (r * lsLength len cs) p) :
@@ -618,13 +625,13 @@ theorem locate_interpolate_ls_partial {len : Len} (hl : LenAx len) (cs : List Pt
   have hd1 : r * lsLength len cs ≤ lsLength len cs := by nlinarith
   unfold lsPointAtRatioFromStart lsPointAtDistanceFromStart at hp
   rw [if_neg (not_le.2 hd0)] at hp
-  match hw : walk len (segs cs) (r * lsLength len cs), hp with
+  match hw : walk len (Interp.segs cs) (r * lsLength len cs), hp with
   | none, _ =>
-    have := walk_none (segs cs) _ hd0 hw
+    have := walk_none (Interp.segs cs) _ hd0 hw
     exact absurd this (not_lt.2 hd1)
   | some (a, b, r'), hp =>
     simp only [Option.some.injEq] at hp
-    obtain ⟨pre, post, e, hr', hpos, hle⟩ := walk_some (segs cs) _ hd0 hw
+    obtain ⟨pre, post, e, hr', hpos, hle⟩ := walk_some (Interp.segs cs) _ hd0 hw
     have hlpos : 0 < len a b := lt_of_lt_of_le hpos hle
     have hab : a ≠ b := by
       intro h; rw [h, hl.self_zero] at hlpos; exact lt_irrefl _ hlpos
@@ -659,7 +666,7 @@ theorem locate_start (len : Len) (a : Pt) (rest : List Pt) :
   split
   · rfl
   · cases rest with
-    | nil => simp [segs, locateGo]
+    | nil => simp [Interp.segs, locateGo]
     | cons b rest =>
       have hz : segDistSq a a b = 0 := by
         by_cases hab : a = b
@@ -672,7 +679,7 @@ theorem locate_start (len : Len) (a : Pt) (rest : List Pt) :
         split
         · rfl
         · rw [clamp01_eq]; simp
-      simp only [segs, locateGo, hz, hfr, if_true, locateGo_done]
+      simp only [Interp.segs, locateGo, hz, hfr, if_true, locateGo_done]
       simp
 
 /-! ### on the line; polygons -/
@@ -734,6 +741,306 @@ theorem rect_tri_rings_closed (mn mxp a b c : Pt) :
     SM.isClosed (rectToPoly mn mxp).ext = true ∧ SM.isClosed (triToPoly a b c).ext = true := by
   constructor <;> simp [SM.isClosed, rectToPoly, triToPoly]
 
+/-! ### LineString round trip on simple line strings (geometric hypothesis `SimpleLS`) -/
+
+private theorem segs_ne_nil_of_pos {len : Len} {cs : List Pt} (hL : 0 < lsLength len cs) :
+    Interp.segs cs ≠ [] := by
+  intro h; unfold lsLength at hL; rw [h] at hL; simp [sumLen] at hL
+
+/-- [T] on a simple line string (`SimpleLS`: two segments share a point only at the junction
+between them — stated with geo's `Line: Intersects<Coord>` kernel) every interpolated point with
+`0 < r ≤ 1` is at positive distance from all segments before the one the walk stops on, i.e. the
+hypothesis `EarlierApart` of `locate_interpolate_ls_pointwise` holds. Includes `r` exactly at a
+vertex: the walk stops on the segment that *ends* there. -/
+theorem simple_earlierApart {len : Len} (hl : LenAx len) (cs : List Pt) (hs : SimpleLS cs) (r : Rat)
+    (h0 : 0 < r) (h1 : r ≤ 1) (hL : 0 < lsLength len cs) (p : Pt)
+    (hp : lsPointAtRatioFromStart len cs r = some p) :
+    EarlierApart len cs (r * lsLength len cs) p := by
+  have hd0 : 0 < r * lsLength len cs := mul_pos h0 hL
+  have hd1 : r * lsLength len cs ≤ lsLength len cs := by nlinarith
+  obtain ⟨q, hq, hon⟩ := ls_distance_onSegs hl cs _ (segs_ne_nil_of_pos hL) (le_of_lt hd0) hd1
+  unfold lsPointAtRatioFromStart at hp
+  rw [hp] at hq
+  cases hq
+  exact earlierApart_of_simple hl cs hs _ p hon
+
+/-- [T] `locate_interpolate_ls`: for every simple line string of positive total length and
+**every** ratio `r`, `line_locate_point(point_at_ratio_from_start(line, r)) = clamp01 r`. -/
+theorem locate_interpolate_ls {len : Len} (hl : LenAx len) (cs : List Pt) (hs : SimpleLS cs)
+    (hL : 0 < lsLength len cs) (r : Rat) :
+    (lsPointAtRatioFromStart len cs r).map (lsLineLocatePoint len cs) = some (clamp01 r) := by
+  have hne := segs_ne_nil_of_pos hL
+  have key : ∀ r', 0 < r' → r' ≤ 1 →
+      (lsPointAtRatioFromStart len cs r').map (lsLineLocatePoint len cs) = some r' := by
+    intro r' h0' h1'
+    obtain ⟨p, hp, _⟩ := ls_distance_onSegs hl cs (r' * lsLength len cs) hne
+      (le_of_lt (mul_pos h0' hL)) (by nlinarith)
+    have hp' : lsPointAtRatioFromStart len cs r' = some p := hp
+    rw [hp']
+    simp only [Option.map_some]
+    congr 1
+    exact locate_interpolate_ls_pointwise hl cs r' h0' h1' hL p hp'
+      (simple_earlierApart hl cs hs r' h0' h1' hL p hp')
+  rw [clamp01_eq]
+  by_cases h0 : r ≤ 0
+  · rw [(ls_ratio_clamp hl cs r).1 h0, if_pos h0]
+    match cs, hne with
+    | a :: rest, _ => simp [locate_start]
+  · rw [if_neg h0]
+    by_cases h1 : 1 ≤ r
+    · rw [(ls_ratio_clamp hl cs r).2 h1, ← (ls_ratio_clamp hl cs 1).2 (le_refl _), if_pos h1]
+      exact key 1 (by norm_num) (le_refl _)
+    · rw [if_neg h1]
+      exact key r (not_le.1 h0) (le_of_lt (not_le.1 h1))
+
+/-! ### the simplicity hypothesis is sharp -/
+
+private theorem exists_first {α : Type} (P : α → Prop) : ∀ l : List α, (∃ x ∈ l, P x) →
+    ∃ l1 x l2, l = l1 ++ x :: l2 ∧ P x ∧ ∀ y ∈ l1, ¬ P y
+  | [], h => by obtain ⟨x, hx, _⟩ := h; simp at hx
+  | a :: l, h => by
+    by_cases ha : P a
+    · exact ⟨[], a, l, rfl, ha, by simp⟩
+    · obtain ⟨x, hx, hpx⟩ := h
+      have hx' : x ∈ l := by
+        rcases List.mem_cons.1 hx with rfl | h'
+        · exact absurd hpx ha
+        · exact h'
+      obtain ⟨l1, y, l2, e, hy, hl1⟩ := exists_first P l ⟨x, hx', hpx⟩
+      refine ⟨a :: l1, y, l2, by rw [e]; rfl, hy, ?_⟩
+      intro z hz
+      rcases List.mem_cons.1 hz with rfl | h'
+      · exact ha
+      · exact hl1 z h'
+
+private theorem lineLocatePoint_range (a b p : Pt) :
+    0 ≤ lineLocatePoint a b p ∧ lineLocatePoint a b p ≤ 1 := by
+  unfold lineLocatePoint
+  simp only
+  split
+  · exact ⟨le_refl _, by norm_num⟩
+  · rw [clamp01_eq]
+    split
+    · exact ⟨le_refl _, by norm_num⟩
+    · split
+      · exact ⟨by norm_num, le_refl _⟩
+      · rename_i h0 h1
+        exact ⟨le_of_lt (not_le.1 h0), le_of_lt (not_le.1 h1)⟩
+
+/-- [T] where the line has passed through the interpolated point *before* (the point lies on a
+segment that ends before the one the walk stops on), `line_locate_point` reports that earlier
+passage: a strictly smaller fraction. So the round trip fails there, on any line. -/
+theorem locate_earlier_passage {len : Len} (hl : LenAx len) (cs : List Pt) (r : Rat)
+    (hL : 0 < lsLength len cs) (p : Pt) (pre : List (Pt × Pt)) (a b : Pt) (post : List (Pt × Pt))
+    (e : Interp.segs cs = pre ++ (a, b) :: post) (hlt : sumLen len pre < r * lsLength len cs)
+    (hz : ∃ s ∈ pre, segDistSq p s.1 s.2 = 0) :
+    lsLineLocatePoint len cs p < r := by
+  obtain ⟨pre1, s1, rest1, epre, hs1, hpos⟩ := exists_first (fun s => segDistSq p s.1 s.2 = 0) pre hz
+  obtain ⟨a1, b1⟩ := s1
+  have hpos' : ∀ s ∈ pre1, 0 < segDistSq p s.1 s.2 := fun s hs =>
+    lt_of_le_of_ne (segDistSq_nonneg p s.1 s.2) (Ne.symm (hpos s hs))
+  have e' : Interp.segs cs = pre1 ++ (a1, b1) :: (rest1 ++ (a, b) :: post) := by
+    rw [e, epre]; simp
+  obtain ⟨f0, f1⟩ := lineLocatePoint_range a1 b1 p
+  have hsum : sumLen len pre = sumLen len pre1 + (len a1 b1 + sumLen len rest1) := by
+    rw [epre, sumLen_append]; rfl
+  have hrest := sumLen_nonneg hl rest1
+  have hl1 := hl.nonneg a1 b1
+  unfold lsLineLocatePoint
+  simp only
+  rw [if_neg (ne_of_gt hL), e',
+    locateGo_first_hit len p a1 b1 _ hs1 pre1 0 none 0 (by intro c hc; cases hc) hpos',
+    div_lt_iff₀ hL]
+  nlinarith
+
+/-- [T] for `0 < r ≤ 1` on a line of positive length the round trip holds **exactly** where the
+point has not been passed before: `line_locate_point(point_at_ratio_from_start(r)) = r ⇔
+EarlierApart`. -/
+theorem locate_interpolate_ls_iff {len : Len} (hl : LenAx len) (cs : List Pt) (r : Rat)
+    (h0 : 0 < r) (h1 : r ≤ 1) (hL : 0 < lsLength len cs) (p : Pt)
+    (hp : lsPointAtRatioFromStart len cs r = some p) :
+    lsLineLocatePoint len cs p = r ↔ EarlierApart len cs (r * lsLength len cs) p := by
+  constructor
+  · intro heq pre a b post e hlt _ s hs
+    by_contra hnot
+    have hz : segDistSq p s.1 s.2 = 0 := le_antisymm (not_lt.1 hnot) (segDistSq_nonneg p s.1 s.2)
+    have := locate_earlier_passage hl cs r hL p pre a b post e hlt ⟨s, hs, hz⟩
+    rw [heq] at this
+    exact lt_irrefl _ this
+  · exact locate_interpolate_ls_pointwise hl cs r h0 h1 hL p hp
+
+/-! ### every interpolated point lies on the line -/
+
+/-- [T] an empty line string has no interpolated point (all four forms). -/
+theorem ls_empty_none (len : Len) (x : Rat) :
+    lsPointAtDistanceFromStart len [] x = none ∧ lsPointAtDistanceFromEnd len [] x = none ∧
+    lsPointAtRatioFromStart len [] x = none ∧ lsPointAtRatioFromEnd len [] x = none := by
+  simp [lsPointAtRatioFromStart, lsPointAtRatioFromEnd, lsPointAtDistanceFromStart,
+    lsPointAtDistanceFromEnd, revSegs, Interp.segs, walk]
+
+/-- [T] `point_at_distance_from_start` lies on the line string, for **every** distance
+(negative and beyond the length included) and every non-empty line string. -/
+theorem ls_distance_on_line {len : Len} (hl : LenAx len) (cs : List Pt) (hne : cs ≠ []) (d : Rat) :
+    ∃ p, lsPointAtDistanceFromStart len cs d = some p ∧ OnLS cs p := by
+  by_cases hs : Interp.segs cs = []
+  · rcases segs_eq_nil hs with h | ⟨a, rfl⟩
+    · exact absurd h hne
+    · refine ⟨a, ?_, Or.inl rfl⟩
+      unfold lsPointAtDistanceFromStart
+      by_cases hd : d ≤ 0 <;> simp [hd, Interp.segs, walk]
+  · have hL : 0 ≤ lsLength len cs := sumLen_nonneg hl _
+    obtain ⟨d', h0, h1, he⟩ : ∃ d', 0 ≤ d' ∧ d' ≤ lsLength len cs ∧
+        lsPointAtDistanceFromStart len cs d = lsPointAtDistanceFromStart len cs d' := by
+      by_cases hd0 : d ≤ 0
+      · exact ⟨0, le_refl _, hL, by
+          rw [(ls_distance_clamp_lo len cs d hd0).1, (ls_distance_clamp_lo len cs 0 (le_refl _)).1]⟩
+      · by_cases hd1 : lsLength len cs ≤ d
+        · exact ⟨lsLength len cs, hL, le_refl _, by
+            rw [ls_distance_clamp_hi hl cs d hd1, ls_distance_clamp_hi hl cs _ (le_refl _)]⟩
+        · exact ⟨d, le_of_lt (not_le.1 hd0), le_of_lt (not_le.1 hd1), rfl⟩
+    obtain ⟨p, hp, hon⟩ := ls_distance_onSegs hl cs d' hs h0 h1
+    exact ⟨p, by rw [he, hp], onLS_of_lerp (onSegs_on_segment hl _ _ _ hon)⟩
+
+/-- [T] `point_at_ratio_from_start` lies on the line string, for every ratio. -/
+theorem ls_ratio_on_line {len : Len} (hl : LenAx len) (cs : List Pt) (hne : cs ≠ []) (r : Rat) :
+    ∃ p, lsPointAtRatioFromStart len cs r = some p ∧ OnLS cs p :=
+  ls_distance_on_line hl cs hne _
+
+/-- [T] `point_at_distance_from_end` lies on the line string, for every distance. -/
+theorem ls_distance_from_end_on_line {len : Len} (hl : LenAx len) (cs : List Pt) (hne : cs ≠ [])
+    (d : Rat) : ∃ p, lsPointAtDistanceFromEnd len cs d = some p ∧ OnLS cs p := by
+  rw [from_end_eq_reverse]
+  obtain ⟨p, hp, hon⟩ := ls_distance_on_line hl cs.reverse (by simpa using hne) d
+  exact ⟨p, hp, (onLS_reverse cs p).1 hon⟩
+
+/-- [T] `point_at_ratio_from_end` lies on the line string, for every ratio. -/
+theorem ls_ratio_from_end_on_line {len : Len} (hl : LenAx len) (cs : List Pt) (hne : cs ≠ [])
+    (r : Rat) : ∃ p, lsPointAtRatioFromEnd len cs r = some p ∧ OnLS cs p :=
+  ls_distance_from_end_on_line hl cs hne _
+
+/-- [T] Line: the ratio forms return a point of the closed segment, for every ratio. -/
+theorem line_ratio_on_line (a b : Pt) (r : Rat) :
+    lineCoord a b (linePointAtRatioFromStart a b r) = true ∧
+    lineCoord a b (linePointAtRatioFromEnd a b r) = true := by
+  unfold linePointAtRatioFromStart linePointAtRatioFromEnd
+  by_cases h0 : r ≤ 0
+  · simp [h0, lineCoord_start, lineCoord_end]
+  · by_cases h1 : r ≥ 1
+    · simp [h0, h1, lineCoord_start, lineCoord_end]
+    · simp only [h0, h1, if_false]
+      refine ⟨lineCoord_lerp a b r (le_of_lt (not_le.1 h0)) (le_of_lt (not_le.1 h1)), ?_⟩
+      rw [← lineCoord_swap]
+      exact lineCoord_lerp b a r (le_of_lt (not_le.1 h0)) (le_of_lt (not_le.1 h1))
+
+/-- [T] Line: the distance forms return a point of the closed segment, for every distance. -/
+theorem line_distance_on_line {len : Len} (hl : LenAx len) (a b : Pt) (d : Rat) :
+    lineCoord a b (linePointAtDistanceFromStart len a b d) = true ∧
+    lineCoord a b (linePointAtDistanceFromEnd len a b d) = true := by
+  unfold linePointAtDistanceFromStart linePointAtDistanceFromEnd
+  by_cases h0 : d ≤ 0
+  · simp [h0, lineCoord_start, lineCoord_end]
+  · by_cases h1 : d ≥ len a b
+    · simp [h0, h1, lineCoord_start, lineCoord_end]
+    · simp only [h0, h1, if_false]
+      have hd : 0 < d := not_le.1 h0
+      have hlt : d < len a b := not_le.1 h1
+      have hpos : 0 < len a b := lt_trans hd hlt
+      have t0 : 0 ≤ d / len a b := le_of_lt (div_pos hd hpos)
+      have t1 : d / len a b ≤ 1 := by rw [div_le_iff₀ hpos]; linarith
+      refine ⟨?_, ?_⟩
+      · rw [← lerp_div]; exact lineCoord_lerp a b _ t0 t1
+      · rw [← lineCoord_swap, ← lerp_div, ← hl.symm a b]; exact lineCoord_lerp b a _ t0 t1
+
+/-! ### densify on rings, polygons, Rect, Triangle and the multi-geometries -/
+
+/-- [T] a polygon with closed rings (the geo-types invariant): the rings of the result are the
+densified rings, one for one. -/
+theorem densify_poly_rings_map (len : Len) (mx : Rat) (p : Poly) (hc : PolyClosed p) :
+    polyRings (densifyPoly len p mx) = (polyRings p).map (fun r => densifyLS len r mx) := by
+  rw [densify_poly_rings len mx p (hc _ (by simp [polyRings]))
+    (fun r hr => hc r (by simp [polyRings, hr]))]
+  simp [polyRings]
+
+/-- [T] for every geometry that implements `Densifiable` (Line, LineString, MultiLineString,
+Polygon, MultiPolygon, Rect, Triangle) the coordinate sequences of `densify(max)` are the
+densified coordinate sequences of the input, one for one (polygon rings closed, as built by
+`Polygon::new`; `Rect`/`Triangle` go through `to_polygon`, whose ring is closed). -/
+theorem densify_geom_rings (len : Len) (mx : Rat) (g g' : Geom) (hc : GeomClosed g)
+    (h : densify len mx g = some g') :
+    geomRings g' = (geomRings g).map (fun r => densifyLS len r mx) := by
+  cases g with
+  | point p => simp [densify] at h
+  | multiPoint ps => simp [densify] at h
+  | collection gs => simp [densify] at h
+  | line a b =>
+    simp only [densify, Option.some.injEq] at h; subst h
+    simp [geomRings, densifyLine_eq_LS]
+  | lineString cs =>
+    simp only [densify, Option.some.injEq] at h; subst h
+    simp [geomRings]
+  | multiLineString ls =>
+    simp only [densify, Option.some.injEq] at h; subst h
+    simp [geomRings]
+  | polygon p =>
+    simp only [densify, Option.some.injEq] at h; subst h
+    exact densify_poly_rings_map len mx p hc
+  | multiPolygon ps =>
+    simp only [densify, Option.some.injEq] at h; subst h
+    exact flatMap_map_rings _ _ ps (fun p hp => densify_poly_rings_map len mx p (hc p hp))
+  | rect mn mxp =>
+    simp only [densify, Option.some.injEq] at h; subst h
+    exact densify_poly_rings_map len mx _ (polyClosed_rect mn mxp)
+  | triangle a b c =>
+    simp only [densify, Option.some.injEq] at h; subst h
+    exact densify_poly_rings_map len mx _ (polyClosed_tri a b c)
+
+/-- [T] `densify(max)` produces no segment longer than `max`, on every `Densifiable` geometry
+(including the closing edge of Polygon / Rect / Triangle rings). -/
+theorem densify_geom_pieces {len : Len} (hl : LenAx len) (hh : LenLerp len) (mx : Rat) (hmx : 0 < mx)
+    (g g' : Geom) (hc : GeomClosed g) (h : densify len mx g = some g') :
+    ∀ r ∈ geomRings g', ∀ s ∈ Interp.segs r, len s.1 s.2 ≤ mx := by
+  rw [densify_geom_rings len mx g g' hc h]
+  intro r hr
+  obtain ⟨r0, _, rfl⟩ := List.mem_map.1 hr
+  exact densify_ls_pieces hl hh mx hmx r0
+
+/-- [T] `densify(max)` leaves the length of every coordinate sequence — hence the total length
+/ perimeter — unchanged, on every `Densifiable` geometry. -/
+theorem densify_geom_length {len : Len} (hl : LenAx len) (hh : LenLerp len) (mx : Rat) (hmx : 0 < mx)
+    (g g' : Geom) (hc : GeomClosed g) (h : densify len mx g = some g') :
+    (geomRings g').map (lsLength len) = (geomRings g).map (lsLength len) ∧
+    geomLength len g' = geomLength len g := by
+  have e : (geomRings g').map (lsLength len) = (geomRings g).map (lsLength len) := by
+    rw [densify_geom_rings len mx g g' hc h, List.map_map]
+    apply List.map_congr_left
+    intro r _
+    exact densify_ls_length hl hh mx hmx r
+  exact ⟨e, by unfold geomLength; rw [e]⟩
+
+/-- [T] every original coordinate sequence is kept, in order, inside its densified sequence, and
+closed rings stay closed. -/
+theorem densify_geom_vertices (len : Len) (mx : Rat) (g g' : Geom) (hc : GeomClosed g)
+    (h : densify len mx g = some g') :
+    List.Forall₂ (fun r r' => r.Sublist r' ∧ r'.head? = r.head? ∧ r'.getLast? = r.getLast?)
+      (geomRings g) (geomRings g') := by
+  rw [densify_geom_rings len mx g g' hc h]
+  generalize geomRings g = rs
+  induction rs with
+  | nil => exact List.Forall₂.nil
+  | cons r rs ih =>
+    exact List.Forall₂.cons ⟨densify_sublist len mx r, densify_ends len mx r⟩ ih
+
+/-- [T] the closedness hypothesis is needed: on an *unclosed* ring (not constructible through
+`Polygon::new`) the closing edge added by `Polygon::new` after densifying is not split. -/
+theorem densify_unclosed_witness :
+    ∃ s ∈ Interp.segs (densifyPoly l1 ⟨[⟨0, 0⟩, ⟨4, 0⟩, ⟨4, 1⟩], []⟩ 4).ext, ¬ l1 s.1 s.2 ≤ 4 := by
+  have e1 : densifyBetween l1 ⟨0, 0⟩ ⟨4, 0⟩ 4 = [] :=
+    densify_between_short l1_ax _ _ 4 (by norm_num) (by norm_num [l1])
+  have e2 : densifyBetween l1 ⟨4, 0⟩ ⟨4, 1⟩ 4 = [] :=
+    densify_between_short l1_ax _ _ 4 (by norm_num) (by norm_num [l1])
+  refine ⟨(⟨4, 1⟩, ⟨0, 0⟩), ?_, by norm_num [l1]⟩
+  simp [densifyPoly, densifyLS, Interp.segs, densifySegs, e1, e2, SM.close, SM.isClosed]
+
 /-! ### non-vacuity: the hypotheses are satisfiable, on a path with a repeated vertex
 
 `l1` (taxicab length, `GeoProofs/Lemmas/C15.lean`) satisfies `LenAx` and `LenLerp`. -/
@@ -746,10 +1053,10 @@ private def exPath : List Pt := [⟨0, 0⟩, ⟨0, 0⟩, ⟨2, 0⟩, ⟨2, 3⟩]
 example : lsPointAtRatioFromStart l1 exPath (2 / 5) = lsPointAtRatioFromEnd l1 exPath (1 - 2 / 5) :=
   ratio_start_end l1_ax _ _
 example : lsPointAtDistanceFromStart l1 exPath 7 = some ⟨2, 3⟩ :=
-  ls_distance_clamp_hi l1_ax exPath 7 (by norm_num [exPath, lsLength, segs, sumLen, l1])
+  ls_distance_clamp_hi l1_ax exPath 7 (by norm_num [exPath, lsLength, Interp.segs, sumLen, l1])
 example : lsLineInterpolatePoint l1 exPath 0 = lsPointAtRatioFromStart l1 exPath 0 :=
   deprecated_eq_ratio l1_ax _ _
-example : ∀ s ∈ segs (densifyLS l1 exPath (3 / 2)), l1 s.1 s.2 ≤ 3 / 2 :=
+example : ∀ s ∈ Interp.segs (densifyLS l1 exPath (3 / 2)), l1 s.1 s.2 ≤ 3 / 2 :=
   densify_ls_pieces l1_ax l1_lerp _ (by norm_num) _
 example : lsLength l1 (densifyLS l1 exPath (3 / 2)) = lsLength l1 exPath :=
   densify_ls_length l1_ax l1_lerp _ (by norm_num) _
@@ -763,15 +1070,117 @@ example : densifyPoly l1 (rectToPoly ⟨0, 0⟩ ⟨4, 2⟩) 1 =
 example : linePointAtDistanceFromStart l1 ⟨0, 0⟩ ⟨3, 4⟩ 2 = linePointAtDistanceFromEnd l1 ⟨0, 0⟩ ⟨3, 4⟩ (l1 ⟨0, 0⟩ ⟨3, 4⟩ - 2) :=
   line_distance_start_end l1_ax _ _ _ (by norm_num) (by norm_num [l1])
 
-/-- the simplicity hypothesis of the partial theorem holds on a concrete simple path, at its end -/
+/-- the hypothesis of the pointwise theorem holds on a concrete simple path, at its end -/
 example : EarlierApart l1 [⟨0, 0⟩, ⟨2, 0⟩, ⟨2, 3⟩] 5 ⟨2, 3⟩ := by
   intro pre a b post e h1 h2 s hs
   match pre, e, hs with
   | [x], e, hs =>
-    simp only [segs, List.cons_append, List.nil_append, List.cons.injEq] at e
+    simp only [Interp.segs, List.cons_append, List.nil_append, List.cons.injEq] at e
     simp only [List.mem_singleton] at hs
     rw [hs, ← e.1]
     norm_num [segDistSq]
-  | x :: y :: z, e, _ => simp [segs] at e
+  | x :: y :: z, e, _ => simp [Interp.segs] at e
+
+/-- a concrete simple path (an L-shape) satisfies `SimpleLS` -/
+private theorem exSimple : SimpleLS [⟨0, 0⟩, ⟨2, 0⟩, ⟨2, 3⟩] := by
+  intro pre a b mid c d post q e hab hcd
+  match pre, e with
+  | [], e =>
+    simp only [Interp.segs, List.nil_append, List.cons.injEq, Prod.mk.injEq] at e
+    obtain ⟨⟨rfl, rfl⟩, e2⟩ := e
+    match mid, e2 with
+    | [], e2 =>
+      simp only [List.nil_append, List.cons.injEq, Prod.mk.injEq] at e2
+      obtain ⟨⟨rfl, rfl⟩, _⟩ := e2
+      rw [Kernel.lineCoord_iff] at hab hcd
+      obtain ⟨t, _, _, hx, hy⟩ := hab
+      obtain ⟨u, _, _, hx', hy'⟩ := hcd
+      have : q = ⟨2, 0⟩ := Pt.ext' (by simp only at hx' ⊢; linarith) (by simp only at hy ⊢; linarith)
+      exact ⟨this, this, by simp⟩
+    | [m], e2 => simp at e2
+    | _ :: _ :: _, e2 => simp at e2
+  | [x], e =>
+    simp only [Interp.segs, List.cons_append, List.nil_append, List.cons.injEq] at e
+    have h := e.2.2
+    simp at h
+  | _ :: _ :: _, e => simp [Interp.segs] at e
+
+/-- the round trip exactly at the corner vertex (`r = 2/5` of length 5) and beyond both ends -/
+example : (lsPointAtRatioFromStart l1 [⟨0, 0⟩, ⟨2, 0⟩, ⟨2, 3⟩] (2 / 5)).map
+    (lsLineLocatePoint l1 [⟨0, 0⟩, ⟨2, 0⟩, ⟨2, 3⟩]) = some (clamp01 (2 / 5)) :=
+  locate_interpolate_ls l1_ax _ exSimple (by norm_num [lsLength, Interp.segs, sumLen, l1]) _
+example : (lsPointAtRatioFromStart l1 [⟨0, 0⟩, ⟨2, 0⟩, ⟨2, 3⟩] 7).map
+    (lsLineLocatePoint l1 [⟨0, 0⟩, ⟨2, 0⟩, ⟨2, 3⟩]) = some (clamp01 7) :=
+  locate_interpolate_ls l1_ax _ exSimple (by norm_num [lsLength, Interp.segs, sumLen, l1]) _
+example : EarlierApart l1 [⟨0, 0⟩, ⟨2, 0⟩, ⟨2, 3⟩] (2 / 5 * lsLength l1 [⟨0, 0⟩, ⟨2, 0⟩, ⟨2, 3⟩]) ⟨2, 0⟩ :=
+  simple_earlierApart l1_ax _ exSimple (2 / 5) (by norm_num) (by norm_num)
+    (by norm_num [lsLength, Interp.segs, sumLen, l1]) _
+    (by norm_num [lsPointAtRatioFromStart, lsPointAtDistanceFromStart, lsLength, Interp.segs, sumLen, l1,
+      walk, pointAtDistanceBetween])
+
+/-- a path that touches itself is not simple: the hypothesis excludes it -/
+example : ¬ SimpleLS [⟨0, 0⟩, ⟨2, 0⟩, ⟨2, 2⟩, ⟨1, 0⟩] := by
+  intro h
+  have := (h [] ⟨0, 0⟩ ⟨2, 0⟩ [(⟨2, 0⟩, ⟨2, 2⟩)] ⟨2, 2⟩ ⟨1, 0⟩ [] ⟨1, 0⟩ rfl
+    (by rw [Kernel.lineCoord_iff]; exact ⟨1 / 2, by norm_num, by norm_num, by norm_num, by norm_num⟩)
+    (lineCoord_end _ _)).1
+  simp at this
+
+example : ∃ p, lsPointAtRatioFromStart l1 exPath (-3) = some p ∧ OnLS exPath p :=
+  ls_ratio_on_line l1_ax _ (by simp [exPath]) _
+example : ∃ p, lsPointAtDistanceFromEnd l1 exPath (9 / 2) = some p ∧ OnLS exPath p :=
+  ls_distance_from_end_on_line l1_ax _ (by simp [exPath]) _
+example : ∃ p, lsPointAtDistanceFromStart l1 exPath 100 = some p ∧ OnLS exPath p :=
+  ls_distance_on_line l1_ax _ (by simp [exPath]) _
+example : lineCoord ⟨0, 0⟩ ⟨3, 4⟩ (linePointAtDistanceFromEnd l1 ⟨0, 0⟩ ⟨3, 4⟩ 2) = true :=
+  (line_distance_on_line l1_ax _ _ _).2
+
+/-- Rect, Triangle, Polygon with a hole, MultiPolygon: the hypotheses of the densify theorems -/
+example : ∀ r ∈ geomRings (.polygon (densifyPoly l1 (triToPoly ⟨0, 0⟩ ⟨4, 0⟩ ⟨0, 3⟩) 1)),
+    ∀ s ∈ Interp.segs r, l1 s.1 s.2 ≤ 1 :=
+  densify_geom_pieces l1_ax l1_lerp 1 (by norm_num) (.triangle ⟨0, 0⟩ ⟨4, 0⟩ ⟨0, 3⟩) _ trivial rfl
+example : geomLength l1 (.polygon (densifyPoly l1 (rectToPoly ⟨0, 0⟩ ⟨4, 2⟩) (3 / 2))) =
+    geomLength l1 (.rect ⟨0, 0⟩ ⟨4, 2⟩) :=
+  (densify_geom_length l1_ax l1_lerp (3 / 2) (by norm_num) (.rect ⟨0, 0⟩ ⟨4, 2⟩) _ trivial rfl).2
+
+private def exPoly : Poly :=
+  ⟨[⟨0, 0⟩, ⟨9, 0⟩, ⟨9, 9⟩, ⟨0, 0⟩], [[⟨5, 2⟩, ⟨7, 2⟩, ⟨7, 4⟩, ⟨5, 2⟩]]⟩
+
+private theorem exPoly_closed : PolyClosed exPoly := by
+  intro r hr
+  simp only [polyRings, exPoly, List.mem_cons, List.not_mem_nil, or_false] at hr
+  rcases hr with rfl | rfl <;> simp [SM.isClosed]
+
+example : ∀ r ∈ geomRings (.multiPolygon ([exPoly, exPoly].map (fun p => densifyPoly l1 p 2))),
+    ∀ s ∈ Interp.segs r, l1 s.1 s.2 ≤ 2 :=
+  densify_geom_pieces l1_ax l1_lerp 2 (by norm_num) (.multiPolygon [exPoly, exPoly]) _
+    (by intro p hp; simp only [List.mem_cons, List.not_mem_nil, or_false, or_self] at hp
+        rw [hp]; exact exPoly_closed) rfl
+example : geomLength l1 (.polygon (densifyPoly l1 exPoly 2)) = geomLength l1 (.polygon exPoly) :=
+  (densify_geom_length l1_ax l1_lerp 2 (by norm_num) (.polygon exPoly) _ exPoly_closed rfl).2
+
+example : ∃ p, lsPointAtRatioFromEnd l1 exPath (1 / 3) = some p ∧ OnLS exPath p :=
+  ls_ratio_from_end_on_line l1_ax _ (by simp [exPath]) _
+example : polyRings (densifyPoly l1 exPoly 2) = (polyRings exPoly).map (fun r => densifyLS l1 r 2) :=
+  densify_poly_rings_map l1 2 exPoly exPoly_closed
+example : geomRings (.multiLineString ([exPath, []].map (fun l => densifyLS l1 l 1))) =
+    (geomRings (.multiLineString [exPath, []])).map (fun r => densifyLS l1 r 1) :=
+  densify_geom_rings l1 1 (.multiLineString [exPath, []]) _ trivial rfl
+example : List.Forall₂ (fun r r' => r.Sublist r' ∧ r'.head? = r.head? ∧ r'.getLast? = r.getLast?)
+    (geomRings (.polygon exPoly)) (geomRings (.polygon (densifyPoly l1 exPoly 2))) :=
+  densify_geom_vertices l1 2 (.polygon exPoly) _ exPoly_closed rfl
+
+/-- a back-tracking path: the point at `r = 3/4` was passed at `1/4`, which is what locate reports -/
+example : lsLineLocatePoint l1 [⟨0, 0⟩, ⟨2, 0⟩, ⟨0, 0⟩] ⟨1, 0⟩ < 3 / 4 :=
+  locate_earlier_passage l1_ax _ _ (by norm_num [lsLength, Interp.segs, sumLen, l1]) _
+    [(⟨0, 0⟩, ⟨2, 0⟩)] ⟨2, 0⟩ ⟨0, 0⟩ [] rfl (by norm_num [lsLength, Interp.segs, sumLen, l1])
+    ⟨_, List.mem_singleton.2 rfl, by norm_num [segDistSq]⟩
+
+example : lsLineLocatePoint l1 [⟨0, 0⟩, ⟨2, 0⟩, ⟨2, 3⟩] ⟨2, 0⟩ = 2 / 5 ↔
+    EarlierApart l1 [⟨0, 0⟩, ⟨2, 0⟩, ⟨2, 3⟩] (2 / 5 * lsLength l1 [⟨0, 0⟩, ⟨2, 0⟩, ⟨2, 3⟩]) ⟨2, 0⟩ :=
+  locate_interpolate_ls_iff l1_ax _ (2 / 5) (by norm_num) (by norm_num)
+    (by norm_num [lsLength, Interp.segs, sumLen, l1]) _
+    (by norm_num [lsPointAtRatioFromStart, lsPointAtDistanceFromStart, lsLength, Interp.segs, sumLen, l1,
+      walk, pointAtDistanceBetween])
 
 end Geo.Proofs.C15
